@@ -824,7 +824,8 @@ impl<'w> World<'w> {
             (Op::Recover, Out::Ok) => self.offline.iter_mut().for_each(|o| *o = false),
             _ => {}
         }
-        if outc == Out::Panic {
+        // validate() only reads and asserts: its panic (an accounting finding) leaves the allocator usable
+        if outc == Out::Panic && !matches!(op, Op::Validate) {
             self.dead = true;
         }
         outc
@@ -1293,6 +1294,60 @@ impl World<'_> {
     }
 }
 
+impl World<'_> {
+    /// Epilogue of a random history (ordinary operations, judged like all others): free every block still held (through
+    /// its own slot, another slot or no slot), drain, then probe the drained allocator with a tree-order targeted
+    /// allocation of every tree and with base allocations through a slot and without one (C10 after the drain,
+    /// C04 / C11 / C14 on the counters the history left behind), free the probes again and validate.
+    fn epilogue(&mut self, rng: &mut Rng) {
+        let mut budget = 400usize;
+        while !self.dead && budget > 0 {
+            budget -= 1;
+            let Some(b) = self.held.last().copied() else { break };
+            let class = if self.cfg.slots(b.class).is_some() { b.class } else { self.pick_class(rng) };
+            let local = match rng.below(3) {
+                0 if b.local.is_some_and(|l| self.cfg.slots(class).is_some_and(|n| l < n)) => b.local,
+                1 => self.pick_local(rng, class),
+                _ => None,
+            };
+            let n = self.held.len();
+            self.exec(&Op::Put { frame: b.frame, order: b.order, class, local });
+            if self.held.len() >= n {
+                break; // the free failed (a finding of another oracle); do not loop
+            }
+        }
+        if self.dead {
+            return;
+        }
+        self.exec(&Op::Drain);
+        let tf = 1usize << TREE_ORDER;
+        for t in 0..self.ntrees() {
+            if self.dead {
+                return;
+            }
+            let class = self.pick_class(rng);
+            let (frame, order) = if (t + 1) * tf <= self.cfg.frames { (t * tf, TREE_ORDER) } else { (t * tf, 0) };
+            self.exec(&Op::Get { frame: Some(frame), order, class, local: None });
+            self.exec(&Op::Drain);
+        }
+        for k in 0..2 {
+            if self.dead {
+                return;
+            }
+            let class = self.pick_class(rng);
+            let local = if k == 0 { self.pick_local(rng, class) } else { None };
+            self.exec(&Op::Get { frame: None, order: 0, class, local });
+            self.exec(&Op::Drain);
+        }
+        if !self.dead {
+            self.queries(rng, true);
+            if !self.any_offline() {
+                self.exec(&Op::Validate);
+            }
+        }
+    }
+}
+
 fn suite_random(w: &mut dyn Write, rng: &mut Rng, id: u64, seed: u64, ops: usize, name: &str, weights: &Weights, max_trees: usize) -> u64 {
     let cfg = pick_cfg(rng, max_trees, name == "random" || name == "args");
     let mut wd = World::start(w, id, name, seed, cfg);
@@ -1326,11 +1381,14 @@ fn suite_random(w: &mut dyn Write, rng: &mut Rng, id: u64, seed: u64, ops: usize
     if !wd.dead {
         wd.queries(rng, true);
     }
+    if !wd.dead && rng.chance(1, 2) {
+        wd.epilogue(rng);
+    }
     wd.finish(id)
 }
 
 // ---- bounded-exhaustive
-const NSYM: usize = 14;
+const NSYM: usize = 15;
 
 fn exhaustive_cfg(k: usize) -> Cfg {
     match k % 4 {
@@ -1382,6 +1440,12 @@ impl World<'_> {
             10 => Op::Drain,
             11 => Op::Change { id: Some(0), mclass: None, mfree: 0, nclass: None, op: Some(false) },
             12 => Op::Change { id: Some(0), mclass: None, mfree: 0, nclass: None, op: Some(true) },
+            // a slot-less targeted request of the lowest class for a block that is held: the tree counter is taken
+            // (possibly by demoting another class's reservation) before the lower allocator refuses - the undo paths
+            13 => match self.held.first() {
+                Some(b) => Op::Get { frame: Some(b.frame), order: b.order, class: c0, local: None },
+                None => Op::Get { frame: Some(0), order: 0, class: c0, local: None },
+            },
             _ => Op::Put { frame: 1, order: 1, class: c0, local: None },
         }
     }
@@ -1412,6 +1476,30 @@ fn suite_exhaustive(w: &mut dyn Write, depth: usize, configs: usize, shard: (u64
             }
             if !wd.dead && !wd.any_offline() {
                 wd.exec(&Op::Validate);
+            }
+            // short epilogue: free what is held (without a slot), drain, targeted tree-order allocation of every whole tree
+            // (C10 / C04 on whatever counters the four calls left behind)
+            let mut budget = 8;
+            while !wd.dead && budget > 0 {
+                budget -= 1;
+                let Some(b) = wd.held.last().copied() else { break };
+                let n = wd.held.len();
+                wd.exec(&Op::Put { frame: b.frame, order: b.order, class: b.class, local: None });
+                if wd.held.len() >= n {
+                    break;
+                }
+            }
+            if !wd.dead {
+                wd.exec(&Op::Drain);
+                let tf = 1usize << TREE_ORDER;
+                for t in 0..wd.ntrees() {
+                    if !wd.dead && (t + 1) * tf <= wd.cfg.frames {
+                        wd.exec(&Op::Get { frame: Some(t * tf), order: TREE_ORDER, class: wd.cfg.default, local: None });
+                    }
+                }
+                if !wd.dead {
+                    wd.exec(&Op::TreeStats);
+                }
             }
             hist += 1;
             nops += wd.finish(id);
@@ -1626,6 +1714,41 @@ fn suite_exhaust_one(w: &mut dyn Write, rng: &mut Rng, id: u64, seed: u64) -> u6
         // allocate until the allocator reports out of memory
         wd.exhaust(0, 0, Some(0), n + 3);
         wd.exec(&Op::Stats);
+    }
+    // boundary round: EVERY frame of one tree (the slot's reserved tree, else a random one) is freed - without the slot,
+    // through it, or mixed - while all other trees stay full; all of them must be allocatable again through the slot
+    if !wd.dead && !wd.held.is_empty() && rng.chance(1, 3) {
+        let a = wd.a.as_ref().unwrap();
+        let slot = a.local.u64_at(0);
+        let res_tree = if slot >> 63 == 1 { Some(((slot & ((1 << 44) - 1)) as usize * 64) / TREE_FRAMES) } else { None };
+        let t = match res_tree {
+            Some(t) if rng.chance(3, 4) => t,
+            _ => wd.held[rng.range(0, wd.held.len())].frame / TREE_FRAMES,
+        };
+        let mode = rng.below(3);
+        let victims: Vec<Blk> = wd.held.iter().copied().filter(|b| b.frame / TREE_FRAMES == t).collect();
+        let n = victims.len();
+        wd.st_every = 53;
+        for (k, b) in victims.iter().enumerate() {
+            if wd.dead {
+                break;
+            }
+            let local = match mode {
+                0 => None,
+                1 => Some(0),
+                _ => if k % 2 == 0 { None } else { Some(0) },
+            };
+            wd.exec(&Op::Put { frame: b.frame, order: 0, class: 0, local });
+        }
+        wd.st_every = 1;
+        if !wd.dead {
+            wd.exec(&Op::Stats);
+            wd.exec(&Op::TreeStats);
+            wd.st_every = 53;
+            wd.exhaust(0, 0, Some(0), n + 3);
+            wd.st_every = 1;
+            wd.exec(&Op::Stats);
+        }
     }
     if !wd.dead {
         wd.exec(&Op::Validate);
